@@ -188,12 +188,15 @@ fn get_type_layout(module: &Module, ty: TypeId, mode: PackingMode) -> Option<Lay
             let mut layout = Layout { size: 0, align: 1 };
             for member in &def.members {
                 let member_layout = get_type_layout(module, member.type_id, mode)?;
-                layout.size = layout.size.next_multiple_of(member_layout.align);
-                layout.size += member_layout.size;
+                // A size that does not fit in 32 bits is reported as unknown
+                layout.size = layout
+                    .size
+                    .checked_next_multiple_of(member_layout.align)?
+                    .checked_add(member_layout.size)?;
                 layout.align = layout.align.max(member_layout.align);
             }
             // The size of a struct is a multiple of its alignment
-            layout.size = layout.size.next_multiple_of(layout.align);
+            layout.size = layout.size.checked_next_multiple_of(layout.align)?;
             Some(layout)
         }
         TypeLayer::StructTemplate(_) => panic!("unexpected struct template"),
@@ -204,7 +207,7 @@ fn get_type_layout(module: &Module, ty: TypeId, mode: PackingMode) -> Option<Lay
         TypeLayer::Object(_) => None,
         TypeLayer::Array(ty, Some(count)) => {
             let mut layout = get_type_layout(module, ty, mode)?;
-            layout.size *= u32::try_from(count).unwrap();
+            layout.size = layout.size.checked_mul(u32::try_from(count).ok()?)?;
             Some(layout)
         }
         TypeLayer::Array(_, None) => None,
